@@ -8,14 +8,17 @@
    The state space is finite; single-step facts are decided by an exhaustive sweep (138 240 states x 14 labels)
    and lifted to all reachable states by induction over the run (unbounded length, any interleaving). *)
 From UV Require Import Base.Common Model.HsLock Proofs.HsLockP.
+From UV Require Model.WrClose Proofs.WrCloseP.
 
 Definition start_ok (s0 : state) : Prop :=
-  exists cn mu il co he cl ca, s0 = init cn mu il co he cl ca /\ mu <> Mine /\ il <> Mine /\ (co && he = false) /\ (ca = true -> cn = true).
+  exists cn mu il co he cl ca, s0 = init cn mu il co he cl ca /\ mu <> Mine /\ mu <> Parked /\ il <> Mine /\
+    (il = Parked -> co = true) /\ (co && he = false) /\ (ca = true -> cn = true).
 
 Lemma start_inv s0 : start_ok s0 -> invb s0 = true.
 Proof.
-  intros (cn & mu & il & co & he & cl & ca & -> & Hm & Hi & Hc & Hca).
+  intros (cn & mu & il & co & he & cl & ca & -> & Hm & Hp & Hi & Hpk & Hc & Hca).
   destruct mu; try congruence; destruct il; try congruence; destruct co, he; try discriminate;
+  try (specialize (Hpk eq_refl); discriminate);
   destruct ca; try (rewrite Hca by reflexivity); destruct cn, cl; reflexivity.
 Qed.
 
@@ -100,9 +103,78 @@ Proof.
 Qed.
 Print Assumptions C26_guarantee.
 
+(* Implicit handshakes (Read and Write call Handshake() first): a caller waits for the input lock only while no
+   result exists; in particular never behind a reader that is parked in Read (which exists only once the handshake
+   is complete) — so a writer's implicit Handshake cannot be blocked by a reader waiting for the reply to the
+   request that writer is about to send. *)
+Theorem C26_in_wait_only_without_result : forall s0 s, start_ok s0 -> reach s0 s -> p s = P4 ->
+  complete s = false /\ hs_err s = false /\ inl s <> Parked.
+Proof.
+  intros s0 s H0 R HP. pose proof (inv_reach _ _ (start_inv _ H0) R) as I.
+  pose proof (sweep _ inwait_all s) as H. unfold inwait_p in H. rewrite I, HP in H. cbn [implb] in H.
+  apply andb_true_iff in H as [H H3]. apply andb_true_iff in H as [H1 H2].
+  apply negb_true_iff in H1, H2. repeat split; auto. intros E. rewrite E in H3. discriminate.
+Qed.
+Print Assumptions C26_in_wait_only_without_result.
+
+(* ---- the Write / Close interlock (Model/WrClose.v), one writer, one closer, possibly stalled peer ---- *)
+Module WC := WrClose.
+Module WCP := WrCloseP.
+
+(* neither call can block forever: until both have returned one of them can take a step, and each step decreases a
+   measure — even when the peer has stopped reading and no write deadline is set *)
+Theorem C26_interlock_no_deadlock : forall co st s,
+  WCP.reach (WC.init false co st) s -> WC.finished s = false -> WC.can_step s = true.
+Proof.
+  intros co st s R F. assert (I : WCP.invb s = true) by (eapply WCP.inv_reach; [|exact R]; destruct co, st; reflexivity).
+  pose proof (WCP.sweep _ WCP.progress_all s) as H. unfold WCP.progress_p in H. rewrite I, F in H. exact H.
+Qed.
+Print Assumptions C26_interlock_no_deadlock.
+
+Theorem C26_interlock_terminates : forall s l s', WC.step s l = Some s' -> (WCP.measure s' < WCP.measure s)%nat.
+Proof.
+  intros s l s' S. pose proof (WCP.sweep _ WCP.decreases_all s) as H. unfold WCP.decreases_p in H.
+  rewrite forallb_forall in H. specialize (H l). rewrite S in H. apply Nat.ltb_lt. apply H. destruct l; cbn; auto.
+Qed.
+Print Assumptions C26_interlock_terminates.
+
+(* Close takes c.out (closeNotify) only when no Write is in flight; a Write that passed the interlock stays marked
+   in flight until it has returned; a Write returns nil only if its record reached a peer that reads *)
+Theorem C26_interlock : forall co st s, WCP.reach (WC.init false co st) s ->
+  (WC.c s = WC.C2 -> WC.out s <> WC.HW) /\
+  (WCP.w_in (WC.w s) = true -> WC.inflight s = true) /\
+  (WC.wret s = WC.WOk -> WC.stall s = false).
+Proof.
+  intros co st s R. assert (I : WCP.invb s = true) by (eapply WCP.inv_reach; [|exact R]; destruct co, st; reflexivity).
+  pose proof (WCP.sweep _ WCP.interlock_all s) as H. unfold WCP.interlock_p in H. rewrite I in H. cbn [implb] in H.
+  apply andb_true_iff in H as [H H3]. apply andb_true_iff in H as [H1 H2].
+  split; [|split].
+  - intros E. rewrite E in H1. cbn in H1. intros O. rewrite O in H1. discriminate.
+  - intros E. rewrite E in H2. exact H2.
+  - intros E. rewrite E in H3. apply negb_true_iff in H3. exact H3.
+Qed.
+Print Assumptions C26_interlock.
+
+(* the model tells the two orderings apart: with the marker dropped before the record is written, Close during a
+   Write on a stalled peer blocks on c.out for ever *)
+Example C26_ex_marker_early_deadlocks :
+  match WC.run (WC.init true true true) [WC.LW; WC.LW; WC.LW; WC.LC; WC.LC] with
+  | Some s => negb (WC.finished s) && negb (WC.can_step s) | None => false end = true.
+Proof. vm_compute. reflexivity. Qed.
+Example C26_ex_close_ends_stalled_write :
+  match WC.run (WC.init false true true) [WC.LW; WC.LW; WC.LW; WC.LC; WC.LC; WC.LW; WC.LW; WC.LW] with
+  | Some s => WC.finished s && match WC.wret s with WC.WErr => true | _ => false end | None => false end = true.
+Proof. vm_compute. reflexivity. Qed.
+(* and the input lock: a caller made to wait for it although the result exists, behind a parked reader, is stuck *)
+Example C26_ex_in_lock_first_deadlocks :
+  can_progress (mkState Mine Parked true false false false false false INone P4 None) = false.
+Proof. vm_compute. reflexivity. Qed.
+
 (* ---- non-vacuity ---- *)
 Example C26_ex_start : start_ok (init true Others Free false false false false).
 Proof. exists true, Others, Free, false, false, false, false. repeat split; congruence. Qed.
+Example C26_ex_start_parked_reader : start_ok (init false Free Parked true false false false).
+Proof. exists false, Free, Parked, true, false, false, false. repeat split; congruence. Qed.
 (* the caller completes the handshake itself *)
 Example C26_ex_complete :
   match run (init true Free Free false false false false) [LC; LC; LC; LC; LC; LC; LBodyOk; LC; LC; LC; LIDone; LC] with
